@@ -654,14 +654,16 @@ def describe(tier):
         technique='bounded-exhaustive enumeration of redirect chains and start URLs through '
                   'the unmodified application; oracle on the raw request bytes received by the '
                   'fake servers',
-        rule='%d start URLs (user-info, IDN, IPv6, ports, encoded CR/LF and delimiters, spaces) '
+        rule='%d start URLs (user-info, IDN, hosts whose IDNA mapping yields a space or a delimiter, '
+             'IPv6, ports, encoded CR/LF and delimiters, spaces) '
              'fetched directly; all redirect chains of length <=%d over codes %s x next host '
              '{same, other host, same host other port, https} from a start URL carrying '
              'credentials, with the first response setting a host-only and a domain cookie '
              '(cookies on/off); %d Location spellings x 5 codes directly and after a 307; one '
              'https->http link scenario for Referer.  Per request: one well-formed request '
              'line, target == normalised path?query of that hop, exactly one Host == that '
-             'hop\'s host[:port], sent to that hop\'s server, no bare CR/LF, no credentials or '
+             'hop\'s host[:port] and syntactically a host[:port], sent to that hop\'s server (every '
+             'name resolves, so a request to any other host is seen), no bare CR/LF, no credentials or '
              'cookies of another host, no https Referer on http.  distinct = distinct (chain '
              'shape, start URL, cookie mode)'
              % (len(START_URLS), 2 if tier == 'quick' else 3, CODES, len(LOCATIONS)),
